@@ -89,8 +89,16 @@ func valTerm(t *tb, r *Result, v ssa.Value, depth int) string {
 		case name == "(*bytes.Buffer).Bytes":
 			return "buf{" + bufferWrites(t, r, c.Args[0], depth) + "}"
 		}
+		if s, ok := valInline(t, r, x, 0, depth); ok {
+			return s
+		}
 		return shortCallee(c) + "(...)"
 	case *ssa.Extract:
+		if c, ok := x.Tuple.(*ssa.Call); ok {
+			if s, ok := valInline(t, r, c, x.Index, depth); ok {
+				return s
+			}
+		}
 		return valTerm(t, r, x.Tuple, depth+1) + fmt.Sprintf("#%d", x.Index)
 	case *ssa.Phi:
 		var alts []string
@@ -404,4 +412,79 @@ func condTerm(t *tb, v ssa.Value) string {
 		}
 	}
 	return t.term(v).String()
+}
+
+// valInline renders result idx of a call to an in-package function as a value term of the caller: the callee is specialised
+// on its constant arguments, its parameters are replaced by the argument terms, and the result is used when every success
+// return (all returns, if the callee has no error result) yields the same value term.
+func valInline(t *tb, r *Result, c *ssa.Call, idx int, depth int) (string, bool) {
+	cc := c.Common()
+	f := cc.StaticCallee()
+	home := c.Parent()
+	if f == nil || f.Blocks == nil || cc.IsInvoke() || f.Pkg == nil || home == nil || enclosingPkg(home) != f.Pkg || f == home || depth >= maxInline || t.depth >= maxInline {
+		return "", false
+	}
+	bind := map[ssa.Value]constant.Value{}
+	child := newTB(nil)
+	child.depth, child.tables = t.depth+1, t.tables
+	for i, a := range cc.Args {
+		if i >= len(f.Params) {
+			break
+		}
+		p := f.Params[i]
+		if r != nil {
+			if l := r.get(a); l.k == cst && !l.nilc && l.tbl == nil && l.v != nil && l.v.Kind() != constant.Unknown {
+				bind[p] = l.v
+			}
+		} else if k, ok := a.(*ssa.Const); ok && k.Value != nil {
+			bind[p] = k.Value
+		}
+		if isIntegerType(a.Type()) {
+			child.subst[p] = t.term(a)
+			if n := t.ubits(a); n < 64 {
+				if child.ub == nil {
+					child.ub = map[ssa.Value]int{}
+				}
+				child.ub[p] = n
+			}
+		} else if b, ok := a.Type().Underlying().(*types.Basic); ok && b.Info()&types.IsBoolean != 0 {
+			if n, ok := t.names[a]; ok {
+				child.ssub[p] = n
+			} else {
+				child.ssub[p] = "?bool"
+			}
+		} else {
+			child.ssub[p] = valTerm(t, r, a, depth+1)
+		}
+	}
+	sub := specializeAt(f, bind, t.tables, t.depth+1)
+	child.res = sub
+	errLast := false
+	if res := f.Signature.Results(); res.Len() >= 2 && isErrType(res.At(res.Len()-1).Type()) && idx < res.Len()-1 {
+		errLast = true
+	}
+	out, n := "", 0
+	for _, ret := range sub.Returns {
+		if idx >= len(ret.Results) {
+			return "", false
+		}
+		if errLast && !sub.isNil(ret.Results[len(ret.Results)-1]) {
+			continue
+		}
+		var sv string
+		if isIntegerType(ret.Results[idx].Type()) {
+			sv = child.term(ret.Results[idx]).String()
+		} else {
+			sv = valTerm(child, sub, ret.Results[idx], depth+1)
+		}
+		if strings.Contains(sv, child.cycleMark()) || strings.Contains(sv, "(...)") {
+			return "", false
+		}
+		if n > 0 && sv != out {
+			return "", false
+		}
+		out = sv
+		n++
+	}
+	return out, n > 0
 }
